@@ -3,7 +3,7 @@ import re
 
 from cfg import cfg_of
 from expr import Exprs, fmt, walk, contains
-from mirutil import is_call, for_loops, dominating_conds, cond_bool, result_fate
+from mirutil import is_call, for_loops, dominating_conds, cond_bool, result_fate, error_blocks
 from framework import site_of
 import callgraph as cgmod
 
@@ -15,7 +15,7 @@ EXPLANATION = (
     "batch id is below a persistent counter that only the success path advances (or every call site is guarded "
     "by a never-cleared flag); (H3) the reference cache has exactly one filling function, so what is cached "
     "cannot depend on which query came first; (H4) lookups keyed by caller-supplied names end in Err/Option "
-    "propagation, never in unwrap/expect/indexing; (H5) clone_for_thread re-opens the file and no reader state is "
+    "propagation, never in unwrap/expect/indexing; (H6) every loop that loads contig batches on demand runs over all batches with no exit other than exhaustion or error, so a query cannot leave the tables half loaded; (H5) clone_for_thread re-opens the file and no reader state is "
     "shared: no Arc/Rc/raw pointer/Cell in the handle's types and no mutable static read by reader code.")
 UNDECIDED = "that each individual answer is right (C01/C03/C07); OS-level sharing of the file between handles"
 
@@ -53,6 +53,16 @@ def field_path(pl):
     if root is None:
         return None
     return root, tuple(names)
+
+
+def _switch_after(f, nb):
+    """block holding the switch on the Option returned by the next() call in block nb"""
+    b = f.blocks[nb]["term"].get("t")
+    hops = 0
+    while b is not None and f.blocks[b]["term"]["k"] != "switch" and hops < 4:
+        b = f.blocks[b]["term"].get("t")
+        hops += 1
+    return b
 
 
 def local_writes(f):
@@ -235,6 +245,43 @@ def run(F, rep):
                                   "and the loader's cursor runs past the sample table", site=site_of(f, t),
                        key="C08-H2 | %s | unguarded reload" % f.key)
             rep.floor("C08-H2", len(sites), 1, "load_contig_batch call sites")
+
+    # ------------------------------------------------------------ H6: lazy loading is all-or-nothing
+    # A query that loads contig metadata on demand must load every batch: an early exit leaves the handle in a
+    # state where the answer (empty vs. real list) depends on which queries ran before.
+    if loader:
+        nl = 0
+        for f in F.funcs.values():
+            if f.crate not in ("ragc_core", "ragc") or f.kind == "promoted":
+                continue
+            lsites = [bi for bi, t in f.calls() if not t.get("indirect") and t["callee"] == loader.key]
+            if not lsites:
+                continue
+            exf = Exprs(f)
+            g = cfg_of(f)
+            errs = error_blocks(f)
+            loops = for_loops(f, exf)
+            for bi in lsites:
+                inl = [L for L in loops if bi in L["body"]]
+                if not inl:
+                    continue        # a single direct load (by explicit batch id) is not a lazy-load loop
+                L = min(inl, key=lambda l: len(l["body"]))
+                nl += 1
+                rng = L["range"]
+                full = bool(rng) and rng[0] == ("const", 0) and "get_no_contig_batches" in fmt(rng[1])
+                exits = set()
+                for b in L["body"]:
+                    for s in g.succ[b]:
+                        if s not in L["body"] and s not in errs and not f.blocks[s]["cleanup"]:
+                            exits.add((b, s))
+                # the only regular exit is the iterator's None arm, taken from the block that switches on next()
+                nb = L["next_block"]
+                swb = _switch_after(f, nb)
+                bad = [(b, s) for b, s in exits if b != swb]
+                rep.ob("C08-H6", "lazy metadata load loop in %s covers every batch (0..number of batches) and has no early exit" % f.key.rsplit("::", 1)[-1],
+                       full and not bad, detail="range %s; exits other than exhaustion/error: %s" % (rng and (fmt(rng[0]), fmt(rng[1])), ["bb%d->bb%d" % e for e in bad]),
+                       site=L["site"], key="C08-H6 | %s | load loop" % f.key)
+        rep.floor("C08-H6", nl, 6, "lazy-load loops over contig batches")
 
     # ------------------------------------------------------------ H3
     fillers = {}
